@@ -1,8 +1,10 @@
 """C20 A compose directory is resolved to the same metadata in every supported layout (ComposeLayout.tla)."""
+import gc
 import json
 import os
 import shutil
 import tempfile
+import zlib
 
 from . import core, samples
 
@@ -241,6 +243,14 @@ def _evaluate(case, what, root, path, arg, fails):
                 again = getattr(c, kind)
                 if again is not obj:
                     fails.append("%s: second access to .%s returned a different object (not cached)" % (what, kind))
+                # ... also for a caller that keeps no reference of its own between two accesses (c.rpms.add(...); c.rpms[...])
+                obj = again = direct = None
+                getattr(c, kind).compose.respin = 4242
+                if zlib.crc32(what.encode("utf-8", "replace")) % 8 == 0:
+                    gc.collect()            # metadata objects are cyclic (header -> parent): only the collector frees them
+                if getattr(c, kind).compose.respin != 4242:
+                    fails.append("%s: an edit made through .%s is gone at the next access: the file was loaded a second time "
+                                 "(the caller kept no reference in between)" % (what, kind))
             else:
                 if out == "doc":
                     fails.append("%s: .%s returned an object although the file is %s" % (what, kind, e["out"]))
